@@ -6,7 +6,8 @@ ID = "C12"
 PROPERTIES_FILE = "Properties/C12.v"
 COQ_TARGETS = ["Properties/C12.vo", "Fs/VersionCases.vo"]
 LEVEL = "proof"
-TECHNIQUE = "Coq theorems over a hand-written Gallina model of parseVersion/versionString/tversion.handle/NewClient; model tied to the code by differential cases evaluated with vm_compute"
+TECHNIQUE = ("Coq theorems over a hand-written Gallina model of parseVersion/versionString/tversion.handle/NewClient; parseVersion and versionString are also TRANSLATED from the source by go2coq VersionGen on every run and "
+             "proved equal to the model for every string (C12_source_*); the rest of the model is tied to the code by differential cases evaluated with vm_compute")
 LEVEL_TEXT = ("Theorems (all strings, all 32-bit msize/N, all reply scripts) about an executable model of version.go, "
               "tversion.handle and NewClient's negotiation loop; every run re-checks the proofs and compares the model with the real "
               "parseVersion, versionString, tversion.handle, Server.Handle (raw Tversion) and NewClient (scripted servers) on generated inputs.")
@@ -15,7 +16,7 @@ LEVEL_NOTE = ("The server clause evaluated on every observed Tversion/Rversion p
               "predicate on the reply string), proved to coincide with the model's grammar for every string and to be satisfied by the model's "
               "reply for every request; the client clause (client_clause) is likewise evaluated on what NewClient did. parse/vstr observations "
               "are function-level ties to the model (agrees). "
-              "Trusted: Coq kernel + vm_compute; the hand model (Fs/Version.v) is tied to the Go code only by the differential cases; "
+              "Trusted: Coq kernel + vm_compute; parse_version/version_string of the hand model (Fs/Version.v) are proved equal to the functions go2coq VersionGen translates from version.go (Fs/VersionTie.v); tversion.handle and NewClient stay tied by the differential cases only; "
               "ConstGen.v (constants read from the source by go2coq); Go's strings.Split/strconv.ParseUint/fmt %d are modelled by split_on / stdlib decimal conversion.")
 DESIGN_REF = "6/C12"
 ASSUMPTIONS = [
@@ -25,6 +26,7 @@ ASSUMPTIONS = [
 TRUSTED_BASE = [
     "Coq 8.16.1 kernel, vm_compute (cases evaluation); no native_compute",
     "axioms: none (Print Assumptions: closed under the global context for every property theorem)",
+    "go2coq VersionGen (statement-by-statement translation of parseVersion/versionString; refuses anything else) + Fs/VersionPrims.v (hand models of strings.Split, strconv.ParseUint, fmt.Sprintf %d)",
     "go2coq ConstGen (constants maximumLength, highestSupportedVersion, DefaultMessageSize, msg type numbers, EAGAIN)",
     "hand-written model Fs/Version.v, tied by harness/p9/c12_test.go + Fs/VersionCases.v",
     "python case translator props/C12.py:to_case (JSON observation -> c12case term)",
